@@ -268,12 +268,18 @@ class App:
         return f
 
     # ---- one turn
-    def play_turn(self, msgs, state, user_text):
+    def play_turn(self, msgs, state, user_text, options=None):
         """returns (reply_message_or_None, exception_or_None, new_state)"""
         self.log.clear()
         try:
             if self.ver == "v1":
                 msgs.append({"role": "user", "content": user_text})
+                if options is not None:
+                    r = self.app.generate(messages=list(msgs), options=options)
+                    resp = r.response
+                    if isinstance(resp, list) and resp:
+                        return dict(resp[-1]), None, state
+                    return {"role": "assistant", "content": resp}, None, state
                 r = self.app.generate(messages=list(msgs))
                 return r, None, state
             r = self.app.generate(messages=[{"role": "user", "content": user_text}], state=state)
@@ -311,10 +317,14 @@ def get_app(spec, reuse=0):
 
 
 # ----------------------------------------------------------------------------- reference model (sequential rails)
-def model_turn(spec, app, t, orig_text, user_kind="llm"):
+def model_turn(spec, app, t, orig_text, user_kind="llm", opts=None):
     """The 20-line sequential model: rails in order, stop at first reject, rewrite flows forward.
     Returns dict(exp_in, in_blocked, text, exp_out, out_blocked, bot, reply)"""
     k, m, exc = spec["k"], spec["m"], spec.get("exc", False)
+    if opts and opts.get("rails", {}).get("input") is False:
+        k = 0  # the caller switched the input rails off for this call
+    if opts and opts.get("rails", {}).get("output") is False:
+        m = 0
     text = orig_text
     exp_in = []
     in_blocked = None
